@@ -17,12 +17,11 @@ open Ipam
 /-- after **any** history on a pool: `max_cidrs` = capacity, `usage` = used / capacity,
 `allocations_total − releases_total` = number of distinct used blocks -/
 theorem metrics_tell_the_truth (g : Geo) (l : String) (hg : C14.Supported g) (ops : List PoolOp)
-    (hops : ∀ op ∈ ops, C14.OpWF op) :
-    let p := (Pool.new g l).run ops
+    (hops : ∀ op ∈ ops, C14.OpWF op) (p : Pool) (hp : p = (Pool.new g l).run ops) :
     p.maxGauge = g.max ∧ p.usage = p.used.length ∧ p.allocs - p.releases = p.used.length ∧
     p.releases ≤ p.allocs ∧ p.used.Nodup := by
-  intro p
   obtain ⟨hI, hgeo⟩ := C14.ops_inv g l hg ops hops
+  rw [← hp] at hI hgeo
   refine ⟨?_, ?_, ?_, ?_, hI.nodup⟩
   · have := hI.maxg; unfold Pool.max at this; rw [hgeo] at this; exact this
   · rw [hI.usage_eq, hI.count_eq]
